@@ -295,6 +295,15 @@ def build_table(D, seed, vi):
             T.append(Op(nm + ".integrate_log_conditional_y.slice_px_y", lambda R, mkc=mkc: (dict(c=Fx(mkc()), p=B(mk_meas("GaussianPDF", D, R, vi, seed, ("c12ap",))), y=Rw(al.points(R, 2, salt=4))), {}), lambda o: o["c"].integrate_log_conditional_y(o["p"], y=o["y"])))
         else:
             T.append(Op(nm + ".integrate_log_conditional_y.slice_px_y", lambda R, mkc=mkc: (dict(c=Fx(mkc()), p=B(mk_meas("GaussianPDF", D, R, vi, seed, ("c12ap",))), y=Rw(al.points(R, 2, salt=4))), {}), lambda o: o["c"].integrate_log_conditional_y(o["p"], y=o["y"]), Rs=[1, 2]))
+        if sp["kind"] in ("HeteroExp", "HeteroCoshM1", "HeteroReLU"):
+            # prior components of very different widths (the first a million times narrower): the variational fixed point
+            # of each entry converges at its own speed, the batch must not share a stopping decision
+            def mixed_p(R):
+                S_ = objs.spd_batch(D, R, vi, seed, ("c12mx",))
+                m_ = objs.vec_batch(D, R, vi, seed, ("c12mx",)) * 0.5
+                sc = np.array([2.0 ** -20 if r == 0 else 4.0 for r in range(R)])
+                return objs.mk_pdf("GaussianPDF", S_ * sc[:, None, None], m_)
+            T.append(Op(nm + ".integrate_log_conditional_y.slice_px_y.mixed_widths", lambda R, mkc=mkc, mixed_p=mixed_p: (dict(c=Fx(mkc()), p=B(mixed_p(R)), y=Rw(al.points(R, 2, salt=4))), {}), lambda o: o["c"].integrate_log_conditional_y(o["p"], y=o["y"]), Rs=[3]))
     # ---- truncated measures (no slice method: slice the base measure and the limits) -----
     for base in ("GaussianMeasure", "GaussianPDF"):
         def ts(R, base=base):
